@@ -70,6 +70,9 @@ CLAIMED['C15'] = ("for 'select ?' with one string/blob parameter of 0..3 arbitra
 CLAIMED['C13'] = ("the rows built by the real BuildBinaryResultset/AppendBinaryValue decode, with an independent binary-protocol decoder, to the values given: result sets of 1..2 rows x 1..2 columns over eight column types with every NULL pattern (symbolic integers over the full range of each width, symbolic 0..2-byte strings); and, through the real ParseText first, one integer column of every width/sign (symbolic 1..3-digit texts and the extreme values), one DATE column (every month/day text of four years), one DATETIME/TIMESTAMP column (symbolic hours, fractional seconds, zero dates) and one TIME column (negative and >24h values, symbolic digits)",
     "floats and decimals are not covered (floating point and big.Int arithmetic are outside the encoder); calendar arithmetic of package time runs on concrete month/day values; strings longer than 2 bytes (hence the 2/3/8-byte length prefixes) outside the bound; Session.writeResponse's choice of the binary path is not covered; known finding C13-date-unparseable-becomes-zero-date")
 
+CLAIMED['C10'] = ("every namespace the real Namespace.Verify accepts is loaded by the real NewRouter without error or panic, the loaded rule lists each sub table once in exactly one slice, and the rule's sharding function (any int64 key) names a listed table: one hash/mod/range/global rule with symbolic locations (-2..3 per entry), slice lists, row limit and default slice; two rules with case-varying table / parent names and linked rules; date_year / date_month rules with symbolic range digits and date_day rules from concrete forms; mycat and global rules over enumerated database lists and partition parameters",
+    "the rest of the namespace (users, slices, charset) is a fixed valid fixture; lists of at most 3 locations / 2 date ranges / 2 rules; mycat string/murmur/padding sharding functions are not run on keys here (C08); global rules are excluded from the duplicate-database assertion (the stock configuration repeats the logical database); known finding C10-empty-default-slice-accepted")
+
 NA_REASON = "check not built yet (work in progress; see DESIGN.md section 3 for the planned harness)"
 NA = {}
 
